@@ -155,6 +155,10 @@ var operators = []map[string]tokType{
 		"~>": tokBacon,
 		",":  tokComma,
 	},
+
+	// TODO: Composer's constraint operators are not implemented yet; only
+	// plain versions are understood.
+	Composer: {},
 }
 
 func (sys System) typeOf(r rune) uint8 {
